@@ -553,6 +553,15 @@ def check_protocol(repo: Repo, rep: Report, h: Harness, jp: JavaProtocol) -> Non
             else:
                 rep.finding("SGR-3", SUGAR, "SugarLikeBackend.solve", "answer-mode reply parsing",
                             f"reply {reply_sat(descs[0]) if descs else ''!r} gives result {r!r} and sol {sols!r}; expected True and [-2, True, False, 10, True]")
+            # the UNSAT reply after a SAT reply on the same backend: the assignment of the earlier reply must not stay in sol
+            h.reply = a_unsat + "\n"
+            r3 = h.cw.method(b, "solve")()
+            sols3 = [v.attrs.get("sol") for v in vs]
+            if r3 is False and sols3 == [None] * 5:
+                rep.ok("SGR-3", f"{cls}.solve: the UNSAT reply after a SAT reply returns False and clears every sol")
+            else:
+                rep.finding("SGR-3", SUGAR, "SugarLikeBackend.solve", "answer-mode replies in sequence",
+                            f"the reply {a_unsat!r} after a SAT reply on the same backend gives {r3!r} / {sols3!r}; expected False and every sol None")
             vs, b = fresh(cls)
             h.reply = a_unsat + "\n"
             r = h.cw.method(b, "solve")()
@@ -643,6 +652,25 @@ def check_protocol(repo: Repo, rep: Report, h: Harness, jp: JavaProtocol) -> Non
             else:
                 rep.finding("SGR-3", SUGAR, "SugarLikeBackend.solve_irrefutably", "deduction-mode empty reply",
                             f"reply {d_sat!r} alone gives {r!r} / {[v.attrs.get('sol') for v in vs]!r}")
+            # replies in sequence on one backend (an incremental session): every reply replaces what the previous one left in sol -
+            # a second 'sat' with fewer facts clears the facts it no longer states, 'unsat' states no value at all
+            vs, b = fresh(cls)
+            h.cw.method(b, "add_constraint")([c1])
+            h.reply = reply_ded
+            h.cw.method(b, "solve_irrefutably")(keys)
+            h.reply = lambda desc: "\n".join([d_sat, instantiate(d_tmpl[0], decl_names(desc).get(4, "?"), "false")]) + "\n"
+            r2 = h.cw.method(b, "solve_irrefutably")(keys)
+            sols2 = [v.attrs.get("sol") for v in vs]
+            h.reply = d_unsat + "\n"
+            r3 = h.cw.method(b, "solve_irrefutably")(keys)
+            sols3 = [v.attrs.get("sol") for v in vs]
+            if r2 is True and sols2 == [None, None, None, None, False] and r3 is False and sols3 == [None] * 5:
+                rep.ok("SGR-3", f"{cls}.solve_irrefutably: three replies in sequence (facts, fewer facts, unsat) - each replaces the sol fields of the one before")
+            else:
+                rep.finding("SGR-3", SUGAR, "SugarLikeBackend.solve_irrefutably", "deduction-mode replies in sequence",
+                            f"after a reply deciding variables 0, 2, 4, the reply 'sat' + one fact (variable 4 false) gives {r2!r} / {sols2!r} "
+                            f"(expected True / [None, None, None, None, False]); the reply {d_unsat!r} after that gives {r3!r} / {sols3!r} "
+                            "(expected False and every sol None: an unsatisfiable program has no facts, values of an earlier reply must not stay)")
             vs, b = fresh(cls)
             h.reply = d_unsat + "\n"
             r = h.cw.method(b, "solve_irrefutably")(keys)
